@@ -13,7 +13,11 @@ use std::sync::Arc;
 pub mod c01;
 pub mod c03;
 pub mod c04;
+pub mod c05;
+pub mod c06;
+pub mod c08;
 pub mod c09;
+pub mod rulecheck;
 pub mod c10;
 pub mod c11;
 pub mod c12;
@@ -21,6 +25,7 @@ pub mod c14;
 pub mod c16;
 pub mod c17;
 pub mod c18;
+pub mod c26;
 pub mod c28;
 pub mod textcorpus;
 
